@@ -242,6 +242,10 @@ class CMixin:
             v = st.vars.get(t.id)
             if isinstance(v, Ref) and isinstance(st.heap[v.oid], RecObj):
                 return Ptr(v.oid, 0)
+            if isinstance(v, Ptr) and v.oid is not None and isinstance(st.heap.get(v.oid), RecObj) \
+                    and '*' not in (self.frame.ctypes.get(t.id) or '*'):
+                # a struct local initialised from a by-value result (held as a pointer to its record): &p is that record
+                return Ptr(v.oid, 0)
             # address of a scalar / pointer local: box it
             box = getattr(self.frame, 'boxes', None)
             if box is None:
